@@ -89,17 +89,17 @@ static void buf_add(buf_t *b, const void *d, size_t n)
 }
 static void buf_u32(buf_t *b, uint32_t v) { buf_add(b, &v, 4); }
 
-/* The harness does its own I/O with readv/writev so that faults a tracer injects persistently into
- * read()/write() (what snoopy and stdio use) never hit the harness itself. */
+/* The harness does its own I/O with preadv2/pwritev2 (offset -1 = the current position, so they work on pipes too): system calls that
+ * neither snoopy nor stdio use, so that faults a tracer injects persistently into read()/write()/writev() never hit the harness itself. */
 static ssize_t h_write(int fd, const void *d, size_t n)
 {
     struct iovec iov = { (void *) d, n };
-    return writev(fd, &iov, 1);
+    return pwritev2(fd, &iov, 1, -1, 0);
 }
 static ssize_t h_read(int fd, void *d, size_t n)
 {
     struct iovec iov = { d, n };
-    return readv(fd, &iov, 1);
+    return preadv2(fd, &iov, 1, -1, 0);
 }
 
 static void write_all(int fd, const void *d, size_t n)
@@ -724,9 +724,26 @@ static void op_stdio(const op_t *op)
 
 static void op_sock(const op_t *op)
 {
-    /* args: name path [devlog=1] [noread=1] [rcvbuf] */
+    /* args: name path [devlog=1] [noread=1] [rcvbuf] ["stream"] */
     char *name = dupz(op->a[0].p, op->a[0].len), *path = dupz(op->a[1].p, op->a[1].len);
     int devlog = op->n > 2 ? arg_int(&op->a[2]) : 0;
+    if (op->n > 5 && op->a[5].len) {
+        /* a STREAM listener whose daemon does not accept: backlog 0 and one connection already waiting -- a datagram connect() gets
+           EPROTOTYPE, a further blocking stream connect() would wait for ever */
+        struct sockaddr_un sun;
+        int ls = socket(AF_UNIX, SOCK_STREAM, 0);
+        memset(&sun, 0, sizeof sun); sun.sun_family = AF_UNIX;
+        snprintf(sun.sun_path, sizeof sun.sun_path, "%s", path);
+        unlink(path);
+        if (bind(ls, (struct sockaddr *) &sun, sizeof sun) < 0 || listen(ls, 0) < 0) { ev_error("bind/listen stream"); return; }
+        chmod(path, 0777);
+        int pc = socket(AF_UNIX, SOCK_STREAM | SOCK_NONBLOCK, 0);
+        connect(pc, (struct sockaddr *) &sun, sizeof sun);          /* stays in the accept queue; both descriptors stay open */
+        fcntl(ls, F_SETFD, FD_CLOEXEC); fcntl(pc, F_SETFD, FD_CLOEXEC);
+        if (devlog) rec_set_devlog(path);
+        free(name); free(path);
+        return;
+    }
     int s = socket(AF_UNIX, SOCK_DGRAM, 0);
     struct sockaddr_un un;
     memset(&un, 0, sizeof un);
